@@ -83,7 +83,7 @@ def gen_history(rng, nops):
             if isinstance(i, int) and isinstance(cnt, int) and i < L and i + cnt <= L:
                 model_len[0] -= cnt
         elif r < 0.86:
-            ops.append((["ASHRINK 0 %d" % rng.randrange(4)], ("shrink",)))
+            ops.append((["ASHRINK 0 %d" % rng.randrange(4) + lvl()], ("shrink",)))
         elif r < 0.875:
             # the order by current value: sort, change one element in place (the array is not involved in that call), sort again with the same comparator;
             # or sort, append through the lower-level handle of the same array (json_object_get_array + array_list_add), sort again
@@ -99,7 +99,7 @@ def gen_history(rng, nops):
                 if ops[-1][0] == ["ASORT 0"]:
                     ops[-1] = (["ASORT 0"], ("sort",))
         elif r < 0.94:
-            ops.append((["ASORT 0"], ("sort",)))
+            ops.append((["ASORT 0" + lvl()], ("sort",)))
             if rng.random() < 0.8:
                 ops.append((None, ("bsearch",)))  # resolved by the oracle pass: needs the sorted content
         else:
@@ -339,7 +339,9 @@ def shard_fn(shard, nshards, seed, tier, exe, nhist):
                 d = dict(x.split("=", 1) for x in chunk[dump_i].split()[1:])
                 m = exp["model"]
                 want = ",".join("n" if x is None else str(x) for x in m + [None] * 3)
-                if int(d["len"]) != len(m):
+                if d.get("alok") != "1":
+                    key, what = "array_list-handle-disagrees/" + k, "after %s array_list_length/array_list_get_idx on json_object_get_array() disagree with json_object_array_length/get_idx" % (op,)
+                elif int(d["len"]) != len(m):
                     key, what = "length/" + k, "after %s length is %s, model says %d" % (op, d["len"], len(m))
                 elif d["e"] != want:
                     key, what = "contents/" + k, "after %s elements are %s, model says %s" % (op, d["e"][:200], want[:200])
